@@ -24,8 +24,27 @@ ACTIONS = ["Update", "Tick", "Flush", "FlushFails", "Close", "Open", "SetLimit",
 _vec = re.compile(r'^<<"@@V", "(.*)">>$')
 
 
+KF_WIPE = "restart-below-limit-wipes-units"
+
+
 def classify(rec):
-    """Narrow keys of known findings; None = unclassified (reported)."""
+    """Narrow keys of known findings; None = unclassified (reported).
+
+    restart-below-limit-wipes-units: the disagreement appears at a restart (Open) that
+    happens while the absolute hour number is not greater than the retention limit in
+    hours, and it consists of the reply being completely empty although the spec has
+    counts inside the window (stats.New: id - limit - 1 wraps, every unit is deleted).
+    Anything else at a restart, or the same symptom at a larger hour, has no key."""
+    kind = rec.get("kind")
+    if kind == "bad" and rec.get("act") == "open" and rec.get("got"):
+        hour = rec["path"]["base"] + sum(st["x"] for st in rec["path"]["steps"] if st["a"] == "tick")
+        got = rec["got"]
+        if hour <= rec["lim"] and not got["nz"] and not any(got["tot"]) and rec["want"]["slots"]:
+            return KF_WIPE
+    if kind == "trace" and rec.get("prev_ev") == "open":
+        last = rec["trace"][-1]
+        if rec["hour"] <= rec["limit_at"] and not last["nz"] and not any(last["tot"]):
+            return KF_WIPE
     return None
 
 
@@ -154,6 +173,16 @@ def walk(ctx, graph, ncats, frac, budget, workers):
     summ = [r for r in rows if r.get("kind") == "summary"]
     if rc != 0 or not summ:
         raise vlib.Inconclusive("C09 walk harness did not complete:\n" + out[-3000:])
+    return rows, summ[0]
+
+
+def low_clock(ctx, graph, ncats, n, workers):
+    rc, out, rows, _ = go_rows(ctx, "TestZZVerifC09Low", {
+        "VERIF_STATES": graph["states"], "VERIF_EDGES": graph["edges"], "VERIF_WORKERS": str(workers),
+        "VERIF_NCATS": str(ncats), "VERIF_LOW_N": str(n)}, "low", timeout=900)
+    summ = [r for r in rows if r.get("kind") == "summary"]
+    if rc != 0 or not summ:
+        raise vlib.Inconclusive("C09 low-clock harness did not complete:\n" + out[-3000:])
     return rows, summ[0]
 
 
@@ -329,6 +358,20 @@ def run(ctx):
     for r in rows:
         if r.get("kind") == "bad":
             ctx.disagreement(classify(r), r, "after %s(%s): %s" % (r["act"], r["x"], "; ".join(r["msgs"])))
+    truncated = sum(1 for r in rows if r.get("kind") == "bad" and classify(r))
+    # Second part of A: short behaviours on fresh modules with the clock started at 0, 1,
+    # limit-1, limit, limit+1, 2*limit, present day in turn (restart edges first).
+    lrows, lsumm = low_clock(ctx, graph, ncats, 900 if ctx.quick else 9000, 6)
+    for r in lrows:
+        if r.get("kind") == "bad":
+            ctx.disagreement(classify(r), r, "clock started at hour %d, after %s(%s): %s" % (
+                r["path"]["base"], r["act"], r["x"], "; ".join(r["msgs"])))
+    truncated += sum(1 for r in lrows if r.get("kind") == "bad" and classify(r))
+    if lsumm["restarts"] == 0:
+        raise vlib.Inconclusive("vacuous: no restart in the low-clock behaviours")
+    ctx.log("low clock: %d behaviours (%d restart edges), %d steps, %d replies compared, %d disagreements" % (
+        lsumm["behaviours"], lsumm["open_edges"], lsumm["steps"], lsumm["reads"], lsumm["bad"]))
+    rows = rows + lrows
     flaky = sum(1 for r in rows if r.get("kind") == "flaky")
     if flaky:
         raise vlib.Inconclusive("%d disagreements of the walk were not reproduced in isolation: %s" % (
@@ -357,7 +400,14 @@ def run(ctx):
             if tr[0]["seed"] in seen:
                 continue
             seen.add(tr[0]["seed"])
-            rec = {"kind": "trace", "seed": tr[0]["seed"], "steps": nst, "line": len(tr), "trace": tr[-40:]}
+            acts = [x for x in tr[:-1] if x["ev"] != "read"]
+            lim_at = [x["k"] for x in acts if x["ev"] in ("new", "limit")][-1]
+            rec = {"kind": "trace", "seed": tr[0]["seed"], "steps": nst, "line": len(tr), "trace": tr[-40:],
+                   "prev_ev": acts[-1]["ev"], "hour": tr[-1]["hour"], "limit_at": lim_at}
+            if classify(rec):
+                # The spec's state and the module's have diverged: the rest of this trace is not judged.
+                truncated += sum(1 for j in range(len(trows2)) if trows2[j]["ev"] == "read" and j + 1 > i
+                                 and trace_of_line(trows2, j + 1)[0]["seed"] == tr[0]["seed"])
             ctx.disagreement(classify(rec), rec, "reply %s not admitted by Stats.tla after %s (trace seed %d, line %d)" % (
                 json.dumps({k: tr[-1][k] for k in ("units", "len", "tot", "nz")}),
                 json.dumps([[x["ev"], x["k"]] for x in tr[-8:-1] if x["ev"] != "read"]), tr[0]["seed"], len(tr)))
@@ -378,8 +428,12 @@ def run(ctx):
         h = max(hrows, key=concurrent_pairs)
         samples.append({"history": {"limit": h["limit"], "ops": [[o["g"], o["seq"], o["inv"], o["res"], o["op"], o["k"], o["tot"]] for o in h["ops"]]}})
     cov = {
-        "traces_validated_against_impl": summ["restarts"] + ntr + len(hrows) + len(rrows),
-        "evaluations": summ["reads"] + reads + sum(len(h["ops"]) for h in hrows + rrows),
+        "traces_validated_against_impl": summ["restarts"] + lsumm["behaviours"] + ntr + len(hrows) + len(rrows),
+        "evaluations": summ["reads"] + lsumm["reads"] + reads + sum(len(h["ops"]) for h in hrows + rrows),
+        "low_clock_behaviours": lsumm["behaviours"], "low_clock_restart_edges": lsumm["open_edges"],
+        "low_clock_steps": lsumm["steps"], "low_clock_replies_compared": lsumm["reads"],
+        "truncated_by_known_finding": truncated,
+        "trace_start_hours": sorted({r["hour"] for r in trows if r["ev"] == "new"})[:12],
         "distinct_nontrivial": summ["covered_nt"],
         "rule": "A: one evaluation = one real GET /control/stats compared with the spec's admissible reply after a walked edge; "
                 "an edge is non-trivial if counted queries are visible in its destination reply or its source holds counts and the "
@@ -402,6 +456,7 @@ def run(ctx):
         "hours that have been outside the window once (aged out / limit lowered) and are inside again after the limit was raised "
         "may or may not be reported (statement silent)",
         "daily series: only 'sum <= totals' is compared (statement); scratch bbolt files are opened with bbolt.DefaultOptions.NoSync",
+        "the absolute position of the clock is a seeded dimension (0, 1, limit-1, limit, limit+1, 2*limit, ~470000) in every leg",
         "clock never goes backwards; clears, restarts and limit changes are sequential (the quantifier makes only updates concurrent "
         "with flush and reads)"])
 
